@@ -69,7 +69,11 @@ class Printer:
         m = getattr(self, "s_" + k, None)
         if m is not None:
             return m(n, ind, prefix)
-        self.emit(prefix + self.expr(n, 0, stmt=(prefix == "")), ind, tag=n)
+        text = self.expr(n, 0, stmt=(prefix == ""))
+        if prefix == "" and text[:1] in "-+":
+            # a line that starts with an operator continues the expression of the preceding block
+            text = "(" + text + ")"
+        self.emit(prefix + text, ind, tag=n)
 
     def s_assign(self, n, ind, prefix):
         target, e = n[1], n[2]
@@ -195,7 +199,7 @@ class Printer:
         for target, default in n[1]:
             s = self.param(target)
             if default is not None:
-                s += " = " + self.expr(default, 0)
+                s += " = " + self.expr(default, 1)
             ps.append(s)
         if n[2] is not None:
             ps.append(n[2] + "...")
